@@ -45,6 +45,12 @@ package main
 // make independent calls wait for each other (or for ever); the interleaving model has no blocking action.
 // Operations on a package-level channel (send, receive, close, range, select case) are listed in pkg_var_writes
 // with kinds chan-send / chan-receive / chan-close.
+// pkg_go_statements (file, function, callee): every `go` statement of the library packages (in_toto, cmd,
+// internal/spiffe).  A library call that starts goroutines is no longer one thread of the interleaving model, and what
+// those goroutines share is invisible to a per-variable inventory (captured locals); the obligation pins the list.
+// pkg_var_escapes, kind element-alias: an element of a package-level map/slice/array whose element type can share state
+// (pointer, map, slice, chan, interface, func other than a table of plain function names, struct of these, or a type
+// that cannot be determined) is taken out by `range` or by indexing.
 // pkg_var_escapes: a package variable of map/slice/pointer/chan/func (or undetermined) type that is
 // copied into a local, passed as an argument, returned, stored or captured, so that it could be
 // modified through an alias the syntactic inventory cannot follow.
@@ -74,9 +80,11 @@ type gPkg struct {
 	writes   []gWrite // in ordinary functions
 	initW    []gWrite // in init() and in package-level initialisers
 	escapes  []gWrite
-	syncs    []gVar   // package-level synchronisation primitives / channels (name, kind)
-	procs    []gWrite // calls mutating process-global state (v = call, kind = which state), ordinary functions
-	procsI   []gWrite // the same inside init() / package-level initialisers
+	syncs    []gVar          // package-level synchronisation primitives / channels (name, kind)
+	procs    []gWrite        // calls mutating process-global state (v = call, kind = which state), ordinary functions
+	procsI   []gWrite        // the same inside init() / package-level initialisers
+	gos      []gWrite        // go statements: v = file, fn = enclosing function, kind = callee text
+	pureFn   map[string]bool // package variables initialised by a composite literal of plain function names
 	inits    []string
 	mode     string
 	nFuncs   int
@@ -266,6 +274,33 @@ func (a *gAnalysis) collectVars() {
 						kind = "string"
 					case tstr == "string":
 						kind = "string"
+					}
+					if cl, ok := init.(*ast.CompositeLit); ok {
+						pure := len(cl.Elts) > 0
+						for _, e := range cl.Elts {
+							v := e
+							if kv, ok := e.(*ast.KeyValueExpr); ok {
+								v = kv.Value
+							}
+							switch fv := v.(type) {
+							case *ast.Ident:
+								if _, isFn := a.info.Uses[fv].(*types.Func); !isFn {
+									pure = false
+								}
+							case *ast.SelectorExpr:
+								if id, ok := fv.X.(*ast.Ident); !ok || a.importedPkg(id) == "" {
+									pure = false
+								}
+							default:
+								pure = false
+							}
+						}
+						if pure {
+							if a.res.pureFn == nil {
+								a.res.pureFn = map[string]bool{}
+							}
+							a.res.pureFn[n.Name] = true
+						}
 					}
 					if sk := a.syncKind(vs.Type, init, ty); sk != "" {
 						kind = "sync"
@@ -632,6 +667,73 @@ func isRefType(t types.Type) (ref bool, known bool) {
 	return false, true
 }
 
+// sharesState: can a value of this type share mutable state with its copies?
+func sharesState(t types.Type, depth int) bool {
+	if t == nil || depth > 4 {
+		return true
+	}
+	switch u := t.Underlying().(type) {
+	case *types.Basic:
+		return u.Kind() == types.Invalid || u.Kind() == types.UnsafePointer
+	case *types.Pointer, *types.Map, *types.Slice, *types.Chan, *types.Interface, *types.Signature:
+		return true
+	case *types.Array:
+		return sharesState(u.Elem(), depth+1)
+	case *types.Struct:
+		for i := 0; i < u.NumFields(); i++ {
+			if sharesState(u.Field(i).Type(), depth+1) {
+				return true
+			}
+		}
+		return false
+	}
+	return true
+}
+
+// elementAlias: e is (rooted directly in) a package variable of kind "other" that is a map/slice/array whose elements
+// can share state; returns the variable name.
+func (a *gAnalysis) elementAlias(e ast.Expr) string {
+	id, ok := stripParens(e).(*ast.Ident)
+	if !ok {
+		return ""
+	}
+	v := a.pkgVar(id)
+	if v == nil || a.kinds[v.Name()] != "other" {
+		return ""
+	}
+	var elem types.Type
+	switch u := v.Type().Underlying().(type) {
+	case *types.Map:
+		elem = u.Elem()
+	case *types.Slice:
+		elem = u.Elem()
+	case *types.Array:
+		elem = u.Elem()
+	case *types.Pointer:
+		if arr, ok := u.Elem().Underlying().(*types.Array); ok {
+			elem = arr.Elem()
+		} else {
+			return ""
+		}
+	case *types.Basic:
+		if u.Kind() != types.Invalid {
+			return "" // string indexing etc.
+		}
+		// type undetermined (imported): conservative
+	default:
+		return ""
+	}
+	if elem != nil {
+		if _, isFn := elem.Underlying().(*types.Signature); isFn && a.res.pureFn[v.Name()] {
+			return "" // a table of plain function names: code pointers, nothing shared
+		}
+		if !sharesState(elem, 0) {
+			return ""
+		}
+	}
+	return v.Name()
+}
+
 func (a *gAnalysis) walk() {
 	a.benign = map[*ast.Ident]bool{}
 	for _, f := range a.files {
@@ -669,6 +771,7 @@ func (a *gAnalysis) walk() {
 	sort.SliceStable(a.res.initW, less(a.res.initW))
 	sort.SliceStable(a.res.escapes, less(a.res.escapes))
 	sort.SliceStable(a.res.procs, less(a.res.procs))
+	sort.SliceStable(a.res.gos, less(a.res.gos))
 	sort.SliceStable(a.res.procsI, less(a.res.procsI))
 }
 
@@ -747,6 +850,11 @@ func (a *gAnalysis) inspect(root ast.Node) {
 				a.benign[rid] = true
 				a.record(name, "chan-receive", foreign, x.Pos())
 			}
+			if val, ok := x.Value.(*ast.Ident); x.Value != nil && !(ok && val.Name == "_") {
+				if name := a.elementAlias(x.X); name != "" {
+					a.recordEscape(name, "element-alias", x.Pos())
+				}
+			}
 			a.markBenign(x.X) // ranging over a package variable reads it
 		case *ast.UnaryExpr:
 			if x.Op == token.AND {
@@ -772,7 +880,16 @@ func (a *gAnalysis) inspect(root ast.Node) {
 				a.markBenign(x.Y)
 			}
 		case *ast.IndexExpr:
+			if name := a.elementAlias(x.X); name != "" {
+				a.recordEscape(name, "element-alias", x.Pos())
+			}
 			a.markBenign(x.X) // v[k] read (a write was handled at the enclosing statement)
+		case *ast.GoStmt:
+			callee := "func literal"
+			if _, lit := x.Call.Fun.(*ast.FuncLit); !lit {
+				callee = types.ExprString(x.Call.Fun)
+			}
+			a.res.gos = append(a.res.gos, gWrite{filepath.ToSlash(filepath.Join(a.res.dir, filepath.Base(a.fset.Position(x.Pos()).Filename))), a.curFn, callee, x.Pos()})
 		case *ast.CallExpr:
 			a.processCall(x)
 			switch a.builtin(x) {
@@ -1030,6 +1147,7 @@ func genGlobals(repo string) (string, error) {
 
 	// the command line front end and internal packages: listed for completeness, not part of the library property
 	var ovars, owrites, oinit, oprocs, osyncs []string
+	gos := append([]gWrite{}, lib.gos...)
 	for _, d := range goDirs(repo, "cmd", "internal", filepath.Join("in_toto", "slsa_provenance")) {
 		p, err := analyseGlobals(repo, d, false)
 		if err != nil {
@@ -1043,6 +1161,9 @@ func genGlobals(repo string) (string, error) {
 		}
 		for _, w := range p.writes {
 			owrites = append(owrites, fmt.Sprintf("(%s, %s, %s, %s)", coqStr(d), coqStr(w.v), coqStr(w.fn), coqStr(w.kind)))
+		}
+		if d == "cmd" || strings.HasPrefix(d, "cmd/") || d == "internal/spiffe" {
+			gos = append(gos, p.gos...)
 		}
 		for _, w := range append(append([]gWrite{}, p.procs...), p.procsI...) {
 			oprocs = append(oprocs, fmt.Sprintf("(%s, %s, %s, %s)", coqStr(d), coqStr(w.v), coqStr(w.fn), coqStr(w.kind)))
@@ -1062,6 +1183,8 @@ func genGlobals(repo string) (string, error) {
 	sb.WriteString("Definition other_pkg_vars : list (str * str * str) := " + lst(ovars, "str * str * str") + ".\n")
 	sb.WriteString("Definition other_pkg_var_writes : list (str * str * str * str) := " + lst(owrites, "str * str * str * str") + ".\n")
 	sb.WriteString("Definition other_pkg_init_writes : list (str * str * str * str) := " + lst(oinit, "str * str * str * str") + ".\n")
+	sb.WriteString("(* (file, enclosing function, callee): every go statement of in_toto/, cmd/ and internal/spiffe/ *)\n")
+	sb.WriteString("Definition pkg_go_statements : list (str * str * str) := " + coqTriples(gos) + ".\n")
 	sb.WriteString("Definition other_pkg_sync_vars : list (str * str * str) := " + lst(osyncs, "str * str * str") + ".\n")
 	sb.WriteString("Definition other_pkg_process_state_calls : list (str * str * str * str) := " + lst(oprocs, "str * str * str * str") + ".\n")
 	return sb.String(), nil
